@@ -45,32 +45,43 @@ def index_of_name(name) -> int:
 
 
 # --------------------------------------------------------------------- projection
-def _abstract_value(obj, anomalies):
-    """a completed value -> [kind, src, trail, wrong] of the spec"""
-    from cogent3.app.data_store import get_unique_id
+def _payload_index(pl, anomalies):
+    if isinstance(pl, str) and pl.startswith("AC") and pl.endswith("T") and set(pl[2:-1]) <= {"G"} and len(pl) > 3:
+        return len(pl) - 3
+    anomalies.append("completed-content-payload")
+    return 0
 
-    if isinstance(obj, dict) and "c14_wrong_from" in obj:
-        return {
-            "kind": "completed",
-            "src": index_of_name(get_unique_id(obj.get("source") or "")),
-            "trail": list(obj.get("c14_trail", [])),
-            "wrong": obj["c14_wrong_from"],
-        }
+
+def _abstract_value(obj, anomalies):
+    """a completed value (of any value class of apps_C14) -> [kind, src, trail, wrong] of the spec"""
+    rec = {"kind": "completed", "src": 0, "trail": [], "wrong": 0}
     try:
-        d = {str(k): str(v) for k, v in obj.to_dict().items()}
+        if isinstance(obj, dict) and "c14_wrong_from" in obj:
+            rec.update(src=index_of_name(obj.get("c14_name")), trail=list(obj.get("c14_trail", [])), wrong=obj["c14_wrong_from"])
+        elif isinstance(obj, dict) and "c14_name" in obj:
+            rec.update(src=index_of_name(obj["c14_name"]), trail=list(obj["c14_trail"]))
+            if _payload_index(obj.get("c14_payload"), anomalies) != rec["src"]:
+                anomalies.append("completed-content-payload")
+        elif isinstance(obj, bytes):
+            name, payload, trail = obj.decode("utf8").split("|")
+            rec.update(src=index_of_name(name), trail=[int(k) for k in trail.split(",") if k])
+            if _payload_index(payload, anomalies) != rec["src"]:
+                anomalies.append("completed-content-payload")
+        elif isinstance(obj, str):
+            q = Path(obj)
+            if not (q.parent.parent.name == "c14v" and q.parent.name.startswith("T") and q.suffix == ".fasta"):
+                raise ValueError(obj)
+            rec.update(src=index_of_name(q.stem), trail=[int(k) for k in q.parent.name[1:].split("-") if k])
+        else:
+            d = {str(k): str(v) for k, v in obj.to_dict().items()}
+            return _abstract_seqs(d, anomalies)
     except Exception:
         anomalies.append("completed-content-unreadable")
-        return {"kind": "completed", "src": 0, "trail": [], "wrong": 0}
-    return _abstract_seqs(d, anomalies)
+    return rec
 
 
 def _abstract_seqs(d, anomalies):
-    src = 0
-    pl = d.get("id")
-    if pl is not None and pl.startswith("AC") and pl.endswith("T") and set(pl[2:-1]) <= {"G"}:
-        src = len(pl) - 3
-    else:
-        anomalies.append("completed-content-payload")
+    src = _payload_index(d.get("id"), anomalies)
     trail = [1]
     for k in sorted(x for x in d if x != "id"):
         if k.startswith("g") and k[1:].isdigit() and d[k] == "ACGT"[: int(k[1:])]:
@@ -80,27 +91,48 @@ def _abstract_seqs(d, anomalies):
     return {"kind": "completed", "src": src, "trail": trail, "wrong": 0}
 
 
-def _abstract_nc(nc, anomalies):
+def _abstract_nc(nc, anomalies, expect=None):
+    """a NotCompleted -> [kind, type, origin, msg, src] of the spec; `expect` = index of the input
+    under whose identifier it was found (messages of the test apps name their record)"""
+    import re
+
     from apps_C14 import STEP_OF_ORIGIN
     from cogent3.app.data_store import get_unique_id
 
     origin = STEP_OF_ORIGIN.get(str(nc.origin), 0)
     if not origin:
-        anomalies.append(f"nc-origin-unknown")
-    srcname = get_unique_id(nc.source) if nc.source else ""
-    src = index_of_name(srcname)
+        anomalies.append("nc-origin-unknown")
+    try:
+        src = index_of_name(get_unique_id(nc.source)) if nc.source else 0
+    except Exception:
+        src = 0
+        anomalies.append("nc-source-unreadable")
     msg = str(nc.message)
+
+    def mine(m):
+        return m and int(m.group(2)) == origin and index_of_name(m.group(1)) == (expect if expect is not None else src)
+
     if msg == "unexpected output value None":
         cls = "none-out"
     elif msg.startswith("invalid data type"):
         cls = "invalid-type"
     elif msg.startswith("c14-fail "):
-        cls = "custom" if msg == f"c14-fail {srcname} step {origin}" else "custom-other-record"
+        cls = "custom" if mine(re.fullmatch(r"c14-fail (\S+) step (\d+)", msg)) else "custom-other-record"
     elif "C14Error: boom " in msg and "Traceback" in msg:
-        cls = "exception" if f"C14Error: boom {srcname} step {origin}" in msg else "exception-other-record"
+        cls = "exception" if mine(re.search(r"C14Error: boom (\S+) step (\d+)", msg)) else "exception-other-record"
     else:
         cls = "other"
     return {"kind": "not_completed", "type": str(nc.type), "origin": origin, "msg": cls, "src": src}
+
+
+def _unpickled(data):
+    """what write_db pickled: a rich dict of a cogent3 object / NotCompleted, or a primitive value"""
+    import pickle
+
+    from cogent3.util.deserialise import deserialise_object
+
+    obj = pickle.loads(data)
+    return deserialise_object(obj) if isinstance(obj, dict) and "type" in obj else obj
 
 
 def decode_completed(writer, data, anomalies):
@@ -127,14 +159,13 @@ def decode_completed(writer, data, anomalies):
             if index_of_name(ident) != rec["src"]:
                 anomalies.append("json-record-identifier-differs")
             return rec
-        obj = DEFAULT_DESERIALISER(data)
-        return _abstract_value(obj, anomalies)
+        return _abstract_value(_unpickled(data), anomalies)
     except Exception as ex:  # noqa
         anomalies.append(f"completed-content-undecodable:{type(ex).__name__}")
         return {"kind": "completed", "src": 0, "trail": [], "wrong": 0}
 
 
-def decode_nc(writer, data, anomalies):
+def decode_nc(writer, data, anomalies, expect=None):
     from cogent3.app.composable import NotCompleted
     from cogent3.app.io import DEFAULT_DESERIALISER
     from cogent3.util.deserialise import deserialise_object
@@ -145,7 +176,7 @@ def decode_nc(writer, data, anomalies):
         if not isinstance(nc, NotCompleted):
             anomalies.append("nc-record-not-a-NotCompleted")
             return {"kind": "not_completed", "type": "?", "origin": 0, "msg": "other", "src": 0}
-        return _abstract_nc(nc, anomalies)
+        return _abstract_nc(nc, anomalies, expect)
     except Exception as ex:  # noqa
         anomalies.append(f"nc-content-undecodable:{type(ex).__name__}")
         return {"kind": "not_completed", "type": "?", "origin": 0, "msg": "other", "src": 0}
@@ -160,9 +191,9 @@ def canon_hash(writer, data):
 
     if writer.split("_sqlite")[0] == "write_db":
         try:
-            obj = DEFAULT_DESERIALISER(data)
-            obj = obj.to_rich_dict() if hasattr(obj, "to_rich_dict") else obj
-            data = json.dumps(obj, sort_keys=True, default=repr)
+            import pickle
+
+            data = json.dumps(pickle.loads(data), sort_keys=True, default=repr)
         except Exception as ex:  # noqa
             data = f"undecodable:{type(ex).__name__}"
     b = data.encode("utf8") if isinstance(data, str) else bytes(data)
@@ -207,7 +238,7 @@ def project_store(ds, writer, n, tag, raw=None):
                 anomalies.append(f"{tag}:record-under-unknown-identifier")
                 continue
             data = m.read()
-            rec = decode_nc(writer, data, anomalies) if nc else decode_completed(writer, data, anomalies)
+            rec = decode_nc(writer, data, anomalies, i) if nc else decode_completed(writer, data, anomalies)
             if raw is not None:
                 raw[str(i)] = canon_hash(writer, data)
             if written[i - 1]["kind"] != "none":
@@ -284,18 +315,27 @@ class Tap:
 
 
 # --------------------------------------------------------------------------- jobs
-def build_app(job, ods, ctl):
-    from apps_C14 import c14_g1, c14_g2, c14_load
-    from cogent3.app import io
+def make_steps(job, ctl=None):
+    """loader + step 2 + step 3 of the job's family, instantiated with its plan and value classes"""
+    import apps_C14 as A
 
+    n = len(job["plan"])
     plan = {name_of(i + 1): list(p) for i, p in enumerate(job["plan"])}
     delays = {name_of(i + 1): d for i, d in enumerate(job.get("delays") or [])}
-    loader = c14_load(plan, ctl=str(ctl) if ctl else "", gated=bool(job.get("order")) and job["w"] > 0, delays=delays)
-    steps = [loader, c14_g1(plan), c14_g2(plan)]
+    sched = dict(ctl=str(ctl) if ctl else "", gated=bool(job.get("order")) and job.get("w", 0) > 0, delays=delays)
+    vclass = {name_of(i + 1): c for i, c in enumerate(job.get("vclass") or []) if c}
+    if job.get("family") == "values":
+        payloads = {name_of(i + 1): payload_of(i + 1) for i in range(n)}
+        return A.c14_vload(plan, vclass, payloads, **sched) + A.c14_v1(plan, vclass, payloads) + A.c14_v2(plan, vclass, payloads)
+    return A.c14_load(plan, vclass=vclass, **sched) + A.c14_g1(plan, vclass=vclass) + A.c14_g2(plan, vclass=vclass)
+
+
+def build_app(job, ods, ctl):
+    from cogent3.app import io
+
     wcls = getattr(io, job["writer"].split("_sqlite")[0])
     kw = {"format": "fasta"} if wcls is io.write_seqs else {}
-    app = steps[0] + steps[1] + steps[2] + wcls(data_store=ods, **kw)
-    return app
+    return make_steps(job, ctl) + wcls(data_store=ods, **kw)
 
 
 def prepare_inputs(base: Path, nmax: int) -> Path:
@@ -409,7 +449,7 @@ def run_job(job, root: Path):
     obs["writes"] = []
     wanom = []
     for ts, k, i, uid, data in tap.events:
-        rec = decode_nc(job["writer"], data, wanom) if k == "not_completed" else decode_completed(job["writer"], data, wanom)
+        rec = decode_nc(job["writer"], data, wanom, i) if k == "not_completed" else decode_completed(job["writer"], data, wanom)
         obs["writes"].append({"ts": ts, "kind": k, "i": i, "uid": uid, "rec": rec, "hash": canon_hash(job["writer"], data)})
     if "unforced" in state:
         obs["unforced"] = state["unforced"]
@@ -440,15 +480,13 @@ def run_job(job, root: Path):
 
 def run_as_completed(job, root: Path):
     """list(app.as_completed(inputs)) for the composition without writer -> [[src, value]...]"""
-    from apps_C14 import c14_g1, c14_g2, c14_load
     from cogent3.app.composable import NotCompleted
     from cogent3.app.data_store import get_unique_id
 
     root = Path(root)
     root.mkdir(parents=True, exist_ok=True)
     inputs = make_inputs(job)
-    plan = {name_of(i + 1): list(p) for i, p in enumerate(job["plan"])}
-    app = c14_load(plan) + c14_g1(plan) + c14_g2(plan)
+    app = make_steps(job)
     out = []
     anomalies = []
     try:
@@ -456,7 +494,7 @@ def run_as_completed(job, root: Path):
             src = index_of_name(get_unique_id(r.source))
             obj = getattr(r, "obj", r)
             if isinstance(obj, NotCompleted):
-                a = _abstract_nc(obj, anomalies)
+                a = _abstract_nc(obj, anomalies, src)
                 val = {"k": "nc", "type": a["type"], "origin": a["origin"], "msg": a["msg"], "src": a["src"]}
             else:
                 a = _abstract_value(obj, anomalies)
